@@ -31,5 +31,53 @@ PROPS['C14'] = {
     'cannot': 'netaddr rendering of the BGP identifier is compared as text produced by the model\'s own dotted-quad renderer',
 }
 
+SESSION_GEN = ['Yabgp.GenAgree.header_consts', 'Yabgp.GenAgree.notification_codes', 'Yabgp.GenAgree.capability_codes']
+SESSION_CANNOT = ('Twisted internals and real sockets (stand-in reactor, DESIGN Appendix B), wall-clock drift, float '
+                  'rounding of hold_time/3 (quantised to 1/3 s); histories that leave the single-connection regime '
+                  'are attributed to C12')
+
+PROPS['C01'] = {
+    'module': 'Yabgp.Props.C01',
+    'theorems': ['Yabgp.C01_hold_timer_expires', 'Yabgp.C01_keepalive_timer_expires',
+                 'Yabgp.C01_connect_retry_expires_in_session', 'Yabgp.C01_connect_retry_expires_connect',
+                 'Yabgp.C01_start_from_idle', 'Yabgp.C01_manual_start_ignored', 'Yabgp.C01_manual_stop',
+                 'Yabgp.C01_tcp_connected', 'Yabgp.C01_tcp_fails_connect', 'Yabgp.C01_tcp_fails_in_session',
+                 'Yabgp.C01_open_accepted', 'Yabgp.C01_open_rejected', 'Yabgp.C01_open_unexpected',
+                 'Yabgp.C01_keepalive_msg', 'Yabgp.C01_keepalive_bad_length', 'Yabgp.C01_update_msg',
+                 'Yabgp.C01_notification_msg', 'Yabgp.C01_route_refresh_msg',
+                 'Yabgp.C01_established_only_via_keepalive', 'Yabgp.C01_openconfirm_only_via_open',
+                 'Yabgp.C04_framing_violation'],
+    'genagree': SESSION_GEN,
+    'suites': ['session'],
+    'cannot': SESSION_CANNOT,
+    'level_text': 'Lean 4 theorems, one per RFC 4271 section 8 event, over the hand-written executable model of '
+                  'fsm.py/protocol.py/factory.py/timer.py: for every state with a live tracked connection and every '
+                  'message body / timer / operator event they give the next state, the NOTIFICATION code and sub-code, '
+                  'the OPEN/KEEPALIVE emitted and the close decision; Established and OpenConfirm are shown to be '
+                  'entered by no other message than KEEPALIVE-in-OpenConfirm resp. a valid OPEN-in-OpenSent. The model '
+                  'is tied to /repo by a per-event differential correspondence (BFS over the event alphabet + random '
+                  'walks) and the RFC table is evaluated on the real implementation as an oracle.',
+}
+
+PROPS['C04'] = {
+    'module': 'Yabgp.Props.C04',
+    'theorems': ['Yabgp.C04_terminates', 'Yabgp.C04_progress', 'Yabgp.C04_two_segments', 'Yabgp.C04_segmentation',
+                 'Yabgp.C04_framing_violation'],
+    'genagree': SESSION_GEN,
+    'suites': ['framing'],
+    'cannot': SESSION_CANNOT + '; the equivalence of the model deframer (headOf) with an independently written RFC '
+              'deframer is checked by the framing suite\'s reference deframer on the implementation, not yet by a theorem',
+}
+
+PROPS['C10'] = {
+    'module': 'Yabgp.Props.C10',
+    'theorems': ['Yabgp.C10_update_keeps_session', 'Yabgp.C10_decode_context_stable', 'Yabgp.C10_one_report',
+                 'Yabgp.C10_no_escape_send', 'Yabgp.C04_terminates'],
+    'genagree': SESSION_GEN,
+    'suites': ['session', 'framing'],
+    'cannot': SESSION_CANNOT + '; memory exhaustion other than through non-termination; termination of the message '
+              'decoders themselves is C11',
+}
+
 # properties not claimed yet, with the reason that goes into MANIFEST.not_applicable
 NOT_YET = {}
